@@ -172,6 +172,17 @@ func propC13(w *World, r *Report) {
 	RunLosslessFor(w, r, "C13", newBoundsRun(w))
 	r.Floor("dicttypes", 15)
 	checkOffSize(w, r)
+	{
+		var cf []*ssa.Function
+		for _, f := range w.LibFuncs() {
+			if fnPkgPath(f) == sp.Pkg.Path() {
+				cf = append(cf, f)
+			}
+		}
+		RunLoopAlias(w, r, cf)
+		RunControl(r, "loopalias", "ctlLoopAlias", RunLoopAlias)
+	}
+	checkWidthDict(w, r)
 }
 
 func constEqual(a, b string) bool {
